@@ -5,7 +5,9 @@ import (
 	"go/ast"
 	"go/token"
 	"go/types"
+	"regexp"
 	"sort"
+	"strconv"
 	"strings"
 
 	"golang.org/x/tools/go/ast/astutil"
@@ -153,7 +155,15 @@ func sameVal(a, b Val) bool {
 		return ok && x.S == y.S
 	case *CellPtr:
 		y, ok := b.(*CellPtr)
-		return ok && x.key == y.key
+		if !ok || x.key != y.key || len(x.path) != len(y.path) {
+			return false
+		}
+		for i := range x.path {
+			if x.path[i] != y.path[i] {
+				return false
+			}
+		}
+		return true
 	case *FieldPtr:
 		y, ok := b.(*FieldPtr)
 		return ok && x.heap == y.heap && x.base.S == y.base.S
@@ -264,6 +274,20 @@ func (e *Engine) merge(states []*State) *State {
 		}
 		out.heaps[k] = e.mergeVals(pcs, vs, k).(T)
 	}
+	// non-nil facts: intersection
+	out.nonnil = map[string]bool{}
+	for k := range live[0].nonnil {
+		all := true
+		for _, s := range live[1:] {
+			if !s.nonnil[k] {
+				all = false
+				break
+			}
+		}
+		if all {
+			out.nonnil[k] = true
+		}
+	}
 	// defers
 	for _, s := range live {
 		for fid, list := range s.defers {
@@ -297,6 +321,7 @@ func (e *Engine) merge(states []*State) *State {
 type retInfo struct {
 	st      *State
 	results []Val
+	pos     token.Pos
 }
 
 // runFunction executes fr.fn from state st (consumed) and returns the merged exit state and
@@ -414,7 +439,7 @@ func (e *Engine) runBlocks(fr *Frame, start *ssa.BasicBlock, st *State, region m
 				for _, r := range x.Results {
 					rs = append(rs, e.val(fr, r))
 				}
-				rets = append(rets, retInfo{s, rs})
+				rets = append(rets, retInfo{s, rs, x.Pos()})
 			case *ssa.Panic:
 				e.oblige(s, "no-panic", e.exprLabel(fr.fn, x.Pos(), "panic"), tFalse, x.Pos())
 			default:
@@ -457,7 +482,8 @@ func (e *Engine) enterLoop(fr *Frame, head *ssa.BasicBlock, s *State) *State {
 		e.oblige(s, "inv-init", fmt.Sprintf("loop%d:%s", ord, clauseLabel(cl)), g, head.Instrs[0].Pos())
 	}
 	// modified set by dry run
-	cells, heaps, all := e.loopModified(fr, head, s)
+	nBefore := e.nfresh
+	cells, heaps, all, lf := e.loopModified(fr, head, s)
 	if all {
 		e.havocAll(s)
 	}
@@ -470,9 +496,34 @@ func (e *Engine) enterLoop(fr *Frame, head *ssa.BasicBlock, s *State) *State {
 		s.cells[k] = e.freshOfType(s, t, "l_"+k.alloc.Comment)
 	}
 	for _, h := range heaps {
+		pre := e.heap(s, h, e.heapSort[h])
 		nv := e.fresh(e.heapSort[h], "lh_"+h)
 		s.heaps[h] = nv
 		e.heapWf(s, nv)
+		// loop frame: objects that existed before the loop and are not written by it keep their value
+		if bases, ok := lf[h]; ok && !all && strings.HasPrefix(nv.Sort, "(Array Ref ") {
+			cond := fmt.Sprintf("(<= (newid x) %d)", nBefore)
+			for _, b := range bases {
+				cond += fmt.Sprintf(" (not (= x %s))", b)
+			}
+			e.emit(fmt.Sprintf("(assert (forall ((x Ref)) (! (=> (and %s) (= (select %s x) (select %s x))) :pattern ((select %s x)))))", cond, nv.S, pre.S, nv.S))
+			if e.collect != nil {
+				for _, b := range bases {
+					e.recStore(h, T{b, sRef})
+				}
+			}
+		} else {
+			e.recWild(h)
+		}
+	}
+	// the hidden index of a range-over-slice loop starts at -1 and is only incremented by the
+	// loop header (checked on the SSA shape): it never drops below -1.
+	if ra := e.rangeIndexAlloc(head); ra != nil && rangeIndexShape(ra, head) {
+		if cp, ok := fr.vals[ra].(*CellPtr); ok {
+			if v, ok := s.cells[cp.key].(T); ok {
+				e.assume(s, T{fmt.Sprintf("(>= %s (- 1))", v.S), sBool})
+			}
+		}
 	}
 	for _, cl := range invs {
 		g := e.evalLoopClause(fr, s, cl, head)
@@ -534,10 +585,15 @@ func clauseLabel(cl *Clause) string {
 
 // loopModified runs the loop body once from a fully havocked state with all output
 // discarded and reports which cells and heaps differ on a back edge.
-func (e *Engine) loopModified(fr *Frame, head *ssa.BasicBlock, s *State) (cells []cellKey, heaps []string, all bool) {
+func (e *Engine) loopModified(fr *Frame, head *ssa.BasicBlock, s *State) (cells []cellKey, heaps []string, all bool, frames map[string][]string) {
 	li := e.loops(fr.fn)
 	e.dry++
 	defer func() { e.dry-- }()
+	n0 := e.nfresh
+	savedCollect := e.collect
+	col := &loopFrame{bases: map[string][]T{}, wild: map[string]bool{}}
+	e.collect = col
+	defer func() { e.collect = savedCollect }()
 	// save register map: the dry run must not leak register values
 	saved := fr.vals
 	fr.vals = make(map[ssa.Value]Val, len(saved))
@@ -602,7 +658,90 @@ func (e *Engine) loopModified(fr *Frame, head *ssa.BasicBlock, s *State) (cells 
 		heaps = append(heaps, h)
 	}
 	sort.Strings(heaps)
+	// loop frames: classify the written objects
+	frames = map[string][]string{}
+	if !col.wild["*"] {
+		markOf := map[string]cellKey{}
+		for k, m := range marks {
+			markOf[m] = k
+		}
+		for _, h := range heaps {
+			if col.wild[h] {
+				continue
+			}
+			ok := true
+			seen := map[string]bool{}
+			var bs []string
+			for _, b := range col.bases[h] {
+				txt, inv := e.loopInvariantTerm(b.S, n0, markOf, cellSet, s)
+				if !inv {
+					if isInLoopAlloc(b.S, n0) {
+						continue // object allocated by the loop body: not an old object
+					}
+					ok = false
+					break
+				}
+				if !seen[txt] {
+					seen[txt] = true
+					bs = append(bs, txt)
+				}
+			}
+			if ok {
+				frames[h] = bs
+				if bs == nil {
+					frames[h] = []string{}
+				}
+			}
+		}
+	}
 	return
+}
+
+var bangID = regexp.MustCompile(`[A-Za-z_][A-Za-z0-9_]*!([0-9]+)`)
+
+// isInLoopAlloc: a new_* constant created during the dry run.
+func isInLoopAlloc(t string, n0 int) bool {
+	if !strings.HasPrefix(t, "new_") {
+		return false
+	}
+	m := bangID.FindStringSubmatch(t)
+	if m == nil || m[0] != t {
+		return false
+	}
+	id, _ := strconv.Atoi(m[1])
+	return id > n0
+}
+
+// loopInvariantTerm rewrites a base term of the dry run into a term valid before the loop,
+// when it only depends on values that existed before the loop and on cells the loop does not
+// modify.
+func (e *Engine) loopInvariantTerm(t string, n0 int, markOf map[string]cellKey, modified map[cellKey]bool, pre *State) (string, bool) {
+	ok := true
+	out := bangID.ReplaceAllStringFunc(t, func(tok string) string {
+		m := bangID.FindStringSubmatch(tok)
+		id, _ := strconv.Atoi(m[1])
+		if id <= n0 {
+			return tok
+		}
+		if k, isMark := markOf[tok]; isMark && !modified[k] {
+			if pv, isT := pre.cells[k].(T); isT {
+				return pv.S
+			}
+		}
+		ok = false
+		return tok
+	})
+	if strings.Contains(t, "@") {
+		// reads of dry-run heaps are not loop invariant
+		for _, f := range strings.FieldsFunc(t, func(r rune) bool { return r == ' ' || r == '(' || r == ')' }) {
+			if i := strings.LastIndex(f, "@"); i > 0 {
+				if ep, err := strconv.Atoi(f[i+1:]); err == nil && ep != pre.epoch {
+					ok = false
+				}
+			}
+		}
+	}
+	return out, ok
 }
 
 // evalLoopClause evaluates an invariant/decreases clause in state s.
@@ -675,6 +814,46 @@ func (e *Engine) rangeIndexAlloc(head *ssa.BasicBlock) *ssa.Alloc {
 		}
 	}
 	return nil
+}
+
+// rangeIndexShape: every store to the hidden index is the constant -1 or (load of it) + 1
+// located in the loop header.
+func rangeIndexShape(a *ssa.Alloc, head *ssa.BasicBlock) bool {
+	refs := a.Referrers()
+	if refs == nil {
+		return false
+	}
+	for _, r := range *refs {
+		st, ok := r.(*ssa.Store)
+		if !ok {
+			if u, isU := r.(*ssa.UnOp); isU && u.Op == token.MUL {
+				continue
+			}
+			if _, isD := r.(*ssa.DebugRef); isD {
+				continue
+			}
+			return false
+		}
+		if c, isC := st.Val.(*ssa.Const); isC {
+			if c.Value != nil && c.Value.ExactString() == "-1" {
+				continue
+			}
+			return false
+		}
+		b, isB := st.Val.(*ssa.BinOp)
+		if !isB || b.Op != token.ADD || st.Block() != head {
+			return false
+		}
+		c, isC := b.Y.(*ssa.Const)
+		if !isC || c.Value == nil || c.Value.ExactString() != "1" {
+			return false
+		}
+		l, isL := b.X.(*ssa.UnOp)
+		if !isL || l.Op != token.MUL || l.X != a {
+			return false
+		}
+	}
+	return true
 }
 
 func (e *Engine) rangeOperand(head *ssa.BasicBlock) ssa.Value {
